@@ -2,7 +2,7 @@
 //! PRNG once and then materialised; execution, minimisation and replay read only
 //! the trace, never the PRNG.
 
-use crate::seams::{InputMode, IoPlan, RlMode};
+use crate::seams::{InputMode, IoPlan, Nest, RlMode};
 use serde_json::{json, Value};
 
 #[derive(Clone, Copy, Debug, PartialEq, Eq, PartialOrd, Ord, Hash)]
@@ -303,6 +303,7 @@ pub fn mode_to_json(m: &InputMode) -> Value {
         "remaining_len": match m.rl { RlMode::None => "none", RlMode::Exact => "exact", RlMode::Err => "err", RlMode::Over => "over" },
         "native_read_byte": m.native_read_byte,
         "io_reader": m.io.as_ref().map(|p| json!({"chunks": p.chunks, "eintr_mask": p.eintr_mask})),
+        "nested_task": m.nest.as_ref().map(|n| json!({"lay": n.lay, "bits": hex(n.bits), "at_seam_call": n.at, "after_the_call_is_served": n.after})),
     })
 }
 pub fn mode_from_json(v: &Value) -> Result<InputMode, String> {
@@ -320,7 +321,16 @@ pub fn mode_from_json(v: &Value) -> Result<InputMode, String> {
             eintr_mask: p.get("eintr_mask").and_then(|x| x.as_u64()).ok_or("io.eintr_mask")? as u32,
         }),
     };
-    Ok(InputMode { rl, native_read_byte: v.get("native_read_byte").and_then(|x| x.as_bool()).unwrap_or(false), io })
+    let nest = match v.get("nested_task") {
+        Some(Value::Null) | None => None,
+        Some(n) => Some(Nest {
+            lay: n.get("lay").and_then(|x| x.as_u64()).ok_or("nested_task.lay")? as u16,
+            bits: unhex(n.get("bits").and_then(|x| x.as_str()).ok_or("nested_task.bits")?)?,
+            at: n.get("at_seam_call").and_then(|x| x.as_u64()).unwrap_or(0) as u8,
+            after: n.get("after_the_call_is_served").and_then(|x| x.as_bool()).unwrap_or(false),
+        }),
+    };
+    Ok(InputMode { rl, native_read_byte: v.get("native_read_byte").and_then(|x| x.as_bool()).unwrap_or(false), io, nest })
 }
 
 impl Trace {
